@@ -568,6 +568,27 @@ def _is_copy(e):
     return False
 
 
+def _users_of(ctx, fn):
+    """Functions of the package whose body mentions fn by name (call or reference), fn itself excluded."""
+    out = []
+    for g in ctx.p.all_functions():
+        if g.qname == fn.qname:
+            continue
+        for n in ast.walk(g.node):
+            if (isinstance(n, ast.Attribute) and n.attr == fn.name) or (isinstance(n, ast.Name) and n.id == fn.name):
+                out.append(g)
+                break
+    # module level uses (tables of functions) are not callers we can vouch for
+    for m in ctx.p.modules.values():
+        for st in m.tree.body:
+            if isinstance(st, (ast.FunctionDef, ast.AsyncFunctionDef, ast.ClassDef, ast.Import, ast.ImportFrom)):
+                continue
+            for n in ast.walk(st):
+                if (isinstance(n, ast.Attribute) and n.attr == fn.name) or (isinstance(n, ast.Name) and n.id == fn.name):
+                    return []
+    return out
+
+
 def r03_1_scan(ctx):
     sites = dict_write_sites(ctx.p)
     n = 0
@@ -579,11 +600,16 @@ def r03_1_scan(ctx):
         # logged and held against the checks - while the entry points above were interpreted (setattr()/delattr() builtins go
         # through the checked __setattr__/__delattr__ and are not raw writes)
         ok = fn.qname in APPROVED_WRITERS or fn.qname in ctx.functions
+        if not ok and fn.name.startswith('_') and not fn.name.startswith('__'):
+            # a private helper: it writes for its callers.  Approved when every function of the package that names it is an
+            # approved or analysed writer itself (a new caller anywhere else is reported through this very obligation)
+            users = _users_of(ctx, fn)
+            ok = bool(users) and all(u.qname in APPROVED_WRITERS or u.qname in ctx.functions for u in users)
         seen.add(fn.qname)
         ctx.require(ok, 'R03.1', f'writer({fn.qname.split("::")[1]})', ctx.where(fn, node),
                     f'{kind} on an attribute dict in a function that is not an analysed writer of message state '
                     f'({unparse(node)[:80]})', construct=f'{fn.qname}::dict-write')
-    ctx.floor('R03.1-scan', n, 9)
+    ctx.floor('R03.1-scan', n, 4)
     # class-level machinery that could bypass the checks
     for modname in (MSG,):
         m = ctx.p.module(modname)
